@@ -1,5 +1,7 @@
 import Octo.Proofs.SsTcpGen
 import Octo.Proofs.SsTcpGenEih
+import Octo.Proofs.SsTcpGenEnc
+import Octo.Proofs.SsTcpGenStream
 import Octo.Proofs.Toy
 import Octo.Proofs.Ss2022Stream
 import Octo.Props.C10
@@ -416,5 +418,143 @@ theorem c06_sstcp_eih_user (ov : Bool) (E : MEnv) (k : Ss.Kind) (N : Usize) (sel
         simp only [stepView] at this
         rw [hdu] at this
         simpa [toSess] using this
+
+
+/-! ## the encoder (`encode`, `init_payload_encoder`, `handle_payload_header`, `with_identity`) -/
+
+/-- what the encoder theorems assume: a known cipher, a client session has its target address (the source `unwrap`s it),
+the item fits a `usize`, the padding the externals deliver is a `u16` long and available -/
+structure FirstWrite (E : MEnv) (k : Ss.Kind) (codec : AEADCipherCodec MT) (context : Context MT) (session : Session)
+    (item : Bytes) : Prop where
+  hk : toKind context.kind = some k
+  hself : codec.encoder = none
+  haddr : session.mode = .Client → ∃ ad, session.address = some ad
+  hitem : item.length < 2 ^ 64
+  hpl : E.padLen < 65536
+  hpd : E.padLen ≤ E.padding.length
+
+/-- a client session with a target, and an environment whose randomness yields 3 padding bytes -/
+def demoEncE : MEnv := ⟨Crypto.toy, 990, 990000, 61000, 102400, false, 3, [5, 6, 7]⟩
+def demoEncSess : Session := ⟨.Client, ⟨List.replicate 16 7, none, none⟩, some (.Socket (.V4 ⟨⟨0x0a000001⟩, 443⟩))⟩
+theorem demo_first_write (item : Bytes) (h : item.length < 2 ^ 64) : FirstWrite demoEncE .b3aes128 demoSelf demoCtx demoEncSess item :=
+  ⟨rfl, rfl, fun _ => ⟨_, rfl⟩, h, by decide, by decide⟩
+
+/-- **C03/C06 (generated encoder = model, first write)**: the first `encode` of a connection, as the Rust says it today, never
+panics, terminates (one recursion into itself with the encoder installed) and appends to `dst` exactly the model's `Ss.encode`:
+own salt ‖ identity headers (client, AES-2022 ciphers: `with_eih` over the whole key chain) ‖ then for 2022 the two headers of
+`new_header` over [client: address ‖ padding length ‖ padding ‖] payload and the rest in chunks, for legacy [address ‖] payload in
+chunks; sealed under the session user's key when the session has a user (2022), else the context key. -/
+theorem c03_sstcp_encode_first_is_model (ov : Bool) (E : MEnv) (k : Ss.Kind) (N : Usize) (self : AEADCipherCodec MT)
+    (context : Context MT) (session : Session) (item dst : Bytes) (H : FirstWrite E k self context session item) :
+    AEADCipherCodec.encode ov (XM E) N self context session item dst =
+      PWGen.Res.ok ({ self with encoder := ((Ss.encode E.C (toCtx k context) (toSess session) ⟨none⟩ item (encRand E item)).2.auth.map
+          (fun a => (⟨UInt64.ofNat k.payloadLimit, a⟩ : ChunkEncoder MT))) }, context,
+        dst ++ (Ss.encode E.C (toCtx k context) (toSess session) ⟨none⟩ item (encRand E item)).1, RResult.ok ()) :=
+  encode_first_is_model ov E k N self context session item dst H.hk H.hself H.haddr H.hitem H.hpl H.hpd
+
+/-- the generated encoder reproduces the first write of `Demo22` (empty payload would be padded; here `[1,2,3]`) -/
+example : ∃ c, AEADCipherCodec.encode true (XM demoEncE) 16 demoSelf demoCtx demoEncSess [1, 2, 3] [] =
+    PWGen.Res.ok (c, demoCtx, (Ss.encode Crypto.toy Ss.Demo22.ctx Ss.Demo22.cs {} [1, 2, 3] ⟨[], 990⟩).1, RResult.ok ()) :=
+  ⟨_, by rw [c03_sstcp_encode_first_is_model true demoEncE .b3aes128 16 demoSelf demoCtx demoEncSess [1, 2, 3] []
+    (demo_first_write _ (by decide))]; rfl⟩
+
+/-- **C03 (padding only for 2022, after the address)**: the plaintext the first write seals -/
+theorem c03_sstcp_first_plaintext (E : MEnv) (k : Ss.Kind) (session : Session) (item : Bytes) :
+    firstMsg E k session item =
+      (match toMode session.mode with
+       | .client =>
+         (match session.address.map toAddr with | some ad => Socks5Addr.encode ad | none => []) ++
+           (if k.is2022 then be16 (encRand E item).padding.length ++ (encRand E item).padding else []) ++ item
+       | .server => item) := by
+  unfold firstMsg
+  cases toMode session.mode <;> cases k.is2022 <;> simp [List.append_assoc] <;> rfl
+
+/-- **C06 (whose key seals)**: `init_payload_encoder` derives the session key from the session user's key on a 2022 cipher
+when the session has a user (the response to an identity-header request), and from the context key otherwise -/
+theorem c06_sstcp_encoder_key (ov : Bool) (E : MEnv) (k : Ss.Kind) (N : Usize) (context : Context MT) (session : Session)
+    (dst : Bytes) (hk : toKind context.kind = some k) :
+    ∃ dst', AEADCipherCodec.init_payload_encoder ov (XM E) N context session dst =
+      PWGen.Res.ok (context, dst', RResult.ok ⟨UInt64.ofNat k.payloadLimit, Ss.newAuth E.C k
+        (match k.is2022, session.identity.user with
+         | true, some u => u.key
+         | _, _ => context.key) session.identity.salt⟩) :=
+  ⟨_, init_payload_encoder_eval ov E k N context session dst hk⟩
+
+/-- **C03 (later writes)**: with the encoder in place `encode` is the model's `Ss.encode`: the item in chunks, nothing else -/
+theorem c03_sstcp_encode_later_is_model (ov : Bool) (E : MEnv) (k : Ss.Kind) (N : Usize) (self : AEADCipherCodec MT)
+    (context : Context MT) (session : Session) (item dst : Bytes) (e : ChunkEncoder MT) (r : Ss.EncRand)
+    (he : self.encoder = some e) (hlim : e.payload_limit.toNat = k.payloadLimit) :
+    AEADCipherCodec.encode ov (XM E) N self context session item dst =
+      PWGen.Res.ok ({ self with encoder := ((Ss.encode E.C (toCtx k context) (toSess session) ⟨some e.auth⟩ item r).2.auth.map
+          (fun a => (⟨e.payload_limit, a⟩ : ChunkEncoder MT))) }, context,
+        dst ++ (Ss.encode E.C (toCtx k context) (toSess session) ⟨some e.auth⟩ item r).1, RResult.ok ()) :=
+  encode_later_is_model ov E k N self context session item dst e r he hlim
+
+/-- **C03 (whole stream)**: all writes of a connection through the generated `encode` put on the wire exactly the model's
+`encodeAll` - so every theorem about `encodeAll` (C03 wire format, C04 round trips with the decoder, C12 nonces) is about the
+bytes the code produces -/
+theorem c03_sstcp_encode_stream_is_model (ov : Bool) (E : MEnv) (k : Ss.Kind) (N : Usize) (self : AEADCipherCodec MT)
+    (context : Context MT) (session : Session) (w : Bytes) (ws : List Bytes) (rs : List Ss.EncRand) (dst : Bytes)
+    (H : FirstWrite E k self context session w) (hlen : rs.length = ws.length) :
+    ∃ c', genEncodeAll ov E N context session self dst (w :: ws) = some (c', dst ++
+      (Ss.encodeAll E.C (toCtx k context) (toSess session) {} ((w, encRand E w) :: ws.zip rs)).1) :=
+  genEncodeAll_is_model ov E k N self context session w ws rs dst H.hk H.hself H.haddr H.hitem H.hpl H.hpd hlen
+
+example : ∃ c', genEncodeAll true demoEncE 16 demoCtx demoEncSess demoSelf [] ([1, 2, 3] :: [[4, 5], [], [6]]) = some (c',
+    [] ++ (Ss.encodeAll Crypto.toy (toCtx .b3aes128 demoCtx) (toSess demoEncSess) {}
+      (([1, 2, 3], encRand demoEncE [1, 2, 3]) :: [[4, 5], [], [6]].zip [{}, {}, {}])).1) :=
+  c03_sstcp_encode_stream_is_model true demoEncE .b3aes128 16 demoSelf demoCtx demoEncSess [1, 2, 3] [[4, 5], [], [6]] [{}, {}, {}] []
+    (demo_first_write _ (by decide)) rfl
+
+
+/-! ## every other `decode` call: later calls, the legacy first call; the whole stream after the handshake -/
+
+/-- **C04/C07 (later calls = model, every mode and cipher)**: with a decoder installed one `decode` call is one
+`decode_payload` of the chunk layer and agrees with the model's `cipherDecode` (state, buffer, outcome; the session is untouched) -/
+theorem c04_sstcp_later_call_is_model (ov : Bool) (E : MEnv) (k : Ss.Kind) (N : Usize) (self : AEADCipherCodec MT)
+    (context : Context MT) (session : Session) (src : List UInt8) (g : ChunkDecoder MT) (hg : self.decoder = some g)
+    (hne : src ≠ []) (hopen : ∀ a key n ad c p, E.C.openB a key n ad c = some p → c.length = p.length + 16) :
+    ∃ out, AEADCipherCodec.decode ov (XM E) N self context session src = PWGen.Res.ok out ∧
+      AgreeAny E k self context session src out :=
+  decode_later_is_model ov E k N self context session src g hg hne hopen
+
+example : ∃ out, AEADCipherCodec.decode true (XM demoE) 16 ⟨none, some ⟨Ss.Auth.new .aes128gcm [], .Length⟩⟩ demoCtx demoSess [1, 2] =
+    PWGen.Res.ok out ∧ AgreeAny demoE .b3aes128 ⟨none, some ⟨Ss.Auth.new .aes128gcm [], .Length⟩⟩ demoCtx demoSess [1, 2] out :=
+  c04_sstcp_later_call_is_model true demoE .b3aes128 16 _ demoCtx demoSess [1, 2] _ rfl (by decide)
+    (fun a key n ad c p hp => Crypto.toy_lawful.open_len a key n ad c p hp)
+
+/-- **C04/C07 (legacy first call = model, either mode)**: empty buffer or salt not yet complete → `Ok(None)`, nothing changes;
+else the salt is split off, the decoder is derived from it and `decode` runs once more on the rest - as the model's salt step
+followed by the chunk run; never panics, terminates -/
+theorem c04_sstcp_legacy_first_is_model (ov : Bool) (E : MEnv) (k : Ss.Kind) (N : Usize) (self : AEADCipherCodec MT)
+    (context : Context MT) (session : Session) (src : List UInt8)
+    (hk : toKind context.kind = some k) (hleg : k.is2022 = false) (hN : N.toNat = k.n)
+    (hsalt : session.identity.salt.length = N.toNat) (hself : self.decoder = none) (hb : src.length < 2 ^ 64)
+    (hC : E.C.Lawful) :
+    ∃ out, AEADCipherCodec.decode ov (XM E) N self context session src = PWGen.Res.ok out ∧
+      AgreeAny E k self context session src out :=
+  decode_legacy_first ov E k N self context session src hk hleg hN hsalt hself hb hC
+
+def demoCtxLegacy : Context MT := ⟨List.replicate 16 1, [], .Aes128Gcm, none, []⟩
+example : ∃ out, AEADCipherCodec.decode true (XM demoE) 16 demoSelf demoCtxLegacy demoSess (List.replicate 40 9) = PWGen.Res.ok out ∧
+    AgreeAny demoE .aes128 demoSelf demoCtxLegacy demoSess (List.replicate 40 9) out :=
+  c04_sstcp_legacy_first_is_model true demoE .aes128 16 demoSelf demoCtxLegacy demoSess _ rfl rfl rfl rfl rfl (by decide)
+    Crypto.toy_lawful
+
+/-- **C04 (whole stream after the handshake, lock step)**: once the generated codec has its decoder, for every sequence of
+reads (any segmentation) the generated `decode` under the `FramedRead` loop model (`genCall` under `frFeed`/`feedAll`) and the
+model's `clientCall` produce the same events, keep the same buffer and the same ended flag, and stay related - so the C04
+segmentation theorems and the C05 prefix theorems about `clientCall` are about the generated code from there on -/
+theorem c04_sstcp_stream_lockstep (ov : Bool) (E : MEnv) (k : Ss.Kind) (N : Usize) (ctx : Ss.Ctx) (env : Ss.DecEnv)
+    (hopen : ∀ a key n ad c p, E.C.openB a key n ad c = some p → c.length = p.length + 16)
+    (pieces : List Bytes) (F : FrSt GenSt) (G : FrSt Ss.Dec) (hR : RLater F.st G.st) (hb : F.buf = G.buf) (he : F.ended = G.ended) :
+    (Ss.feedAll (genCall ov E N) F pieces).2 = (Ss.feedAll (Ss.clientCall E.C ctx env) G pieces).2 ∧
+      (Ss.feedAll (genCall ov E N) F pieces).1.buf = (Ss.feedAll (Ss.clientCall E.C ctx env) G pieces).1.buf ∧
+      (Ss.feedAll (genCall ov E N) F pieces).1.ended = (Ss.feedAll (Ss.clientCall E.C ctx env) G pieces).1.ended ∧
+      RLater (Ss.feedAll (genCall ov E N) F pieces).1.st (Ss.feedAll (Ss.clientCall E.C ctx env) G pieces).1.st :=
+  feedAll_later_lockstep ov E k N ctx env hopen pieces F G hR hb he
+
+example : RLater (⟨none, some ⟨Ss.Auth.new .aes128gcm [], .Length⟩⟩, demoCtx, demoSess)
+    ⟨some (toCD ⟨Ss.Auth.new .aes128gcm [], .Length⟩), toSess demoSess⟩ := ⟨_, rfl, rfl⟩
 
 end Octo.SsTcpGen
